@@ -26,19 +26,19 @@ QNAMES = ['a', 'trail ', 'a\nb', '%41', '-x', '日本', 'tab\t', 'L' * 255]
 LAYOUTS = ['home', 'top-sticky', 'top-alt', 'trash-dir']
 SORTS = ['date', 'path', 'none']
 SCOPES = ['dir', 'ancestor', 'root', 'path-arg']
-HISTS = ['none', 'older-same-name', 'unrelated-after', 'parent-removed', 'other-restored-first', 'empty-1-between']
+HISTS = ['none', 'same-second-twin', 'older-same-name', 'unrelated-after', 'parent-removed', 'other-restored-first', 'empty-1-between']
 
 
 def dimensions(tier):
     q = tier != 'thorough'
     return {'name': len(QNAMES if q else NAMES), 'kind': 6, 'layout': 4, 'sort': 3,
-            'scope': 2 if q else 4, 'history': 3 if q else 6}
+            'scope': 2 if q else 4, 'history': 3 if q else 7}
 
 
 def cases(tier):
     q = tier != 'thorough'
     out = []
-    for h in (['none', 'older-same-name', 'parent-removed'] if q else HISTS):
+    for h in (['none', 'same-second-twin', 'parent-removed'] if q else HISTS):
         for sc in (['dir', 'root'] if q else SCOPES):
             for so in SORTS:
                 for lay in LAYOUTS:
@@ -64,8 +64,8 @@ def run_case(c):
     with cell.Sandbox(W.spec()) as sb:
         orig = sb.snapshot()
         h = c['hist']
-        if h == 'older-same-name':
-            r = sb.run(['trash-put'] + tdopt + ['--', n], cwd=B, now=T_OLD)
+        if h in ('older-same-name', 'same-second-twin'):
+            r = sb.run(['trash-put'] + tdopt + ['--', n], cwd=B, now=T_OLD if h == 'older-same-name' else T_US)
             world.build(sb.root, [x for x in W.spec()['nodes'] if x[1] == E or x[1].startswith(E + '/')])
             # re-created original has to be byte-identical to orig for the oracle: rebuild resets mtimes
             orig = sb.snapshot()
@@ -95,6 +95,10 @@ def run_case(c):
         detail = {'argv': argv, 'cwd': cwd, 'listing': listing[:6], 'list_err': r1.err[-300:], 'exit1': r1.exit}
         dims = '|'.join('%s=%s' % (k, c[k] if k != 'name' else name_class(c[k])) for k in ('name', 'kind', 'lay', 'sort', 'scope', 'hist'))
         blame = 'lay=%s|sort=%s' % (c['lay'], c['sort'])
+        if h == 'same-second-twin' and len(want) == 2:
+            want = want[:1]          # two entries with the same path and second: both must be offered; take one
+        elif h == 'same-second-twin':
+            want = []
         if len(want) != 1:
             return {'verdict': 'viol', 'sig': 'C02|not-listed-exactly-once|%s|name=%s' % (blame, name_class(n)), 'klass': 'not-listed',
                     'nontrivial': 'notlisted|' + dims, 'detail': detail}
